@@ -382,6 +382,8 @@ func checkC10(c *Ctx) {
 	}
 
 	// ---- C10.4 re-check of the admission guard (shared with C07.4) is part of C07; here: the client field is the registrant address stored at admission
+	// the IPv4-phantom / IPv4-client rule of the detector rests on the admission test (on the FINAL phantom)
+	checkFamilyRejection(c, "C10.5")
 	r.Rule("C10.4", "the announced client address is the registrant address recorded at admission", 1)
 	if w := c.fn("C10.4", lib, "RegistrationManager", "NewRegistrationC2SWrapper"); w != nil {
 		okk := false
@@ -394,6 +396,7 @@ func checkC10(c *Ctx) {
 	}
 
 	// ---- C10.6
+	checkClearContext(c)
 	r.Rule("C10.6", "Cleanup (detector clear) is deferred in main before the signal loop", 1)
 	if m := c.fn("C10.6", "cmd/application", "", "main"); m != nil {
 		var def ssa.Instruction
@@ -415,5 +418,108 @@ func checkC10(c *Ctx) {
 	}
 	if cl := c.fn("C10.6", lib, "RegistrationManager", "Cleanup"); cl != nil {
 		r.Check(len(callsIn(cl, shortIs("clearDetector"))) == 1, "C10.6", "Cleanup calls clearDetector", cl.Pos(), fnName(cl), "1 call", "Cleanup no longer sends the clear request")
+	}
+}
+
+// checkClearContext (C10.6): the clear request is published at shutdown, after the station's run context was
+// cancelled; its context must therefore be rooted in context.Background()/TODO() (possibly with a timeout), never in
+// a stored / global / inherited context.
+func checkClearContext(c *Ctx) {
+	r := c.R
+	root := c.P.Func(repoMod+"/pkg/station/lib", "", "clearDetector")
+	if root == nil || root.Blocks == nil {
+		return // reported by the C10.6 anchor check
+	}
+	seen := map[*ssa.Function]bool{}
+	var order []*ssa.Function
+	var visit func(f *ssa.Function)
+	visit = func(f *ssa.Function) {
+		if f == nil || seen[f] || f.Blocks == nil || !isRepoPath(fnPkgPath(f)) {
+			return
+		}
+		seen[f] = true
+		order = append(order, f)
+		eachInstr(f, func(in ssa.Instruction) {
+			if ci, ok := in.(ssa.CallInstruction); ok {
+				visit(ci.Common().StaticCallee())
+			}
+		})
+	}
+	visit(root)
+	var rooted func(v ssa.Value, d int) (bool, string)
+	rooted = func(v ssa.Value, d int) (bool, string) {
+		if d > 8 {
+			return false, "deep"
+		}
+		switch x := v.(type) {
+		case *ssa.Call:
+			switch calleeName(&x.Call) {
+			case "context.Background", "context.TODO":
+				return true, ""
+			}
+			return false, "result of " + shortName(calleeName(&x.Call))
+		case *ssa.Extract:
+			if call, ok := x.Tuple.(*ssa.Call); ok && x.Index == 0 {
+				switch calleeName(&call.Call) {
+				case "context.WithTimeout", "context.WithDeadline", "context.WithCancel":
+					return rooted(call.Call.Args[0], d+1)
+				}
+			}
+		case *ssa.Phi:
+			for _, e := range x.Edges {
+				if ok, why := rooted(e, d+1); !ok {
+					return false, why
+				}
+			}
+			return true, ""
+		case *ssa.ChangeInterface:
+			return rooted(x.X, d+1)
+		case *ssa.MakeInterface:
+			return rooted(x.X, d+1)
+		case *ssa.UnOp:
+			if al, ok := x.X.(*ssa.Alloc); ok && al.Referrers() != nil {
+				all := true
+				why := ""
+				n := 0
+				for _, ref := range *al.Referrers() {
+					if st, ok := ref.(*ssa.Store); ok && st.Addr == ssa.Value(al) {
+						n++
+						if ok2, w := rooted(st.Val, d+1); !ok2 {
+							all, why = false, w
+						}
+					}
+				}
+				if n > 0 {
+					return all, why
+				}
+			}
+		}
+		return false, firstN(pathOf(v), 60)
+	}
+	n := 0
+	for _, f := range order {
+		for _, ci := range callsIn(f, shortIs("Publish")) {
+			if len(ci.Common().Args) < 2 {
+				continue
+			}
+			// (cmdable).Publish(recv, ctx, channel, message)
+			var ctxArg ssa.Value
+			for _, a := range ci.Common().Args {
+				if strings.HasSuffix(a.Type().String(), "context.Context") {
+					ctxArg = a
+					break
+				}
+			}
+			if ctxArg == nil {
+				continue
+			}
+			n++
+			ok, why := rooted(ctxArg, 0)
+			r.Check(ok, "C10.6", fnName(f)+": the clear request is published under a context rooted in context.Background()", ci.Pos(), fnName(f), "Background()/TODO(), possibly with a timeout",
+				"the publish reached from clearDetector uses a context that comes from "+why+": Cleanup runs after the station's run context has been cancelled, so the clear request is refused by the redis client and never reaches the detector - a restarted station inherits diversions it knows nothing about")
+		}
+	}
+	if n == 0 {
+		r.Unk("C10.6", "clearDetector: Publish call", root.Pos(), fnName(root), "no Publish reachable from clearDetector")
 	}
 }
